@@ -459,13 +459,29 @@ def loser_status(ctx, svc, snap, reqs, race, order, n):
     if any(w not in done_before for w in wrote_before if w in order):
         ctx.stats.count('loser analysis skipped (winner partly committed)')
         return
-    _r, state = sched.serial(svc, snap, reqs, done_before)
-    fixed = corrected(reqs[n], state)
-    if fixed['b'] == reqs[n]['b']:
+    # The loser may have taken its decision at any of its own scheduling
+    # points: the corrected request has to succeed against every state it
+    # can have seen (the winners completed before each of those points)
+    my_points = [i for i, (name, _k, _d) in enumerate(race.points)
+                 if name == n]
+    prefixes = []
+    for i in my_points:
+        pre = [w for w in order if ends.get(w, 1 << 30) < i]
+        if pre not in prefixes:
+            prefixes.append(pre)
+    if done_before not in prefixes:
+        prefixes.append(done_before)
+    stale = False
+    for pre in prefixes:
+        _r, state = sched.serial(svc, snap, reqs, pre)
+        fixed = corrected(reqs[n], state)
+        if fixed['b'] != reqs[n]['b']:
+            stale = True
+        r2 = machine.execute(svc, fixed)
+        if not r2.ok:
+            return  # rejected for another reason in a state it may have seen
+    if not stale:
         return      # carried nothing stale
-    r2 = machine.execute(svc, fixed)
-    if not r2.ok:
-        return      # rejected for another reason as well: any 4xx is fine
     v = gen.vt(reqs[n]['v'])
     if resp.status != 409 or (v >= (1, 23) and
                               resp.code() != 'placement.concurrent_update'):
